@@ -1,7 +1,7 @@
 """C04 — compare is a total order matching value equality and the documented ranking."""
 from fractions import Fraction
 from .. import gen
-from . import common
+from . import common, sizes
 from .C12 import retype
 
 SPEC_THEOREM = 'Props/C04: cmp_value is a total preorder with equivalence value_eq; compare_m = cmp_value under the generated level table'
@@ -96,6 +96,14 @@ def mutate(ctx, v, depth=0):
 NAMES = {-1: 'lt', 0: 'eq', 1: 'gt'}
 
 
+def is_utf8(b):
+    try:
+        b.decode('utf-8')
+        return True
+    except UnicodeDecodeError:
+        return False
+
+
 def generate(ctx):
     r = ctx.rng
     ds = common.docs(ctx, ctx.scale(500, 20000), finite=False)
@@ -127,6 +135,19 @@ def generate(ctx):
             if not ta.startswith('20') and not tb.startswith('20'):
                 for x, y in ((ta, tb), (ta, eb), (ea, tb)):
                     ctx.add('compare %s %s' % (x, y), meta=('cmp', gen.text_form(a) if x == ta else a, gen.text_form(b) if y == tb else b))
+    # long strings / keys (255 .. 65536 bytes) and wide containers (255 .. 1000 members) against copies that differ at the very end
+    # (sizes.py; second review H2); judged by py_cmp like every other pair.  compare(v, v) on the 1000-member object costs the model
+    # 8 s, so the widest documents are only compared with their mutants
+    for lab, v in sizes.string_docs() + sizes.container_docs():
+        ev = gen.hexarg(gen.enc(v))
+        if not lab.startswith(('obj1000', 'arr1000')):
+            ctx.add('compare %s %s' % (ev, ev), meta=('cmp', v, v))
+        for m in sizes.end_mutants(v)[:1 if lab.startswith(('obj1000', 'arr1000')) else 3]:
+            if m[0] == 's' and not is_utf8(m[1]):
+                continue
+            em = gen.hexarg(gen.enc(m))
+            ctx.add('compare %s %s' % (ev, em), meta=('cmp', v, m))
+            ctx.add('compare %s %s' % (em, ev), meta=('cmp', m, v))
     # numbers of every width against each other: each pool float against its integer neighbours, and a sample of all pairs
     nums = [('i', x) for x in gen.INT_POOL] + [('u', x) for x in gen.UINT_POOL] + [('d', x) for x in gen.FLOAT_POOL + gen.SPECIAL_FLOATS]
     pairs = []
